@@ -106,6 +106,9 @@ type schedLink struct {
 	*link
 	sa, sb *schedSide
 	g      *gen
+	// the scenario makes one side draw a degenerate DH key: the secrets (and MAC keys) of different key
+	// pairs coincide then, which the C09 bookkeeping (keys identified by their value) cannot tell apart
+	keysMayCoincide bool
 }
 
 func (sl *schedLink) side(p *party) *schedSide {
@@ -123,6 +126,9 @@ func (sl *schedLink) peer(p *party) *party {
 
 // C09 / C19 checks on everything a party emits
 func (sl *schedLink) inspectOutgoing(p *party, ms []otr3.ValidMessage) {
+	if sl.keysMayCoincide {
+		return
+	}
 	s := sl.side(p)
 	win := otr3.VerifMACKeys(p.c)
 	for _, whole := range reassembleAll(ms) {
@@ -1587,6 +1593,430 @@ func (g *gen) unreadableTlvKeyUse(w *world) {
 	g.dist["sched:unreadable-tlv-key-use"]++
 }
 
+// a text as it is quoted in a description (long ones cut)
+func cut(b []byte) string {
+	if len(b) > 60 {
+		return fmt.Sprintf("%q... (%d bytes)", b[:60], len(b))
+	}
+	return fmt.Sprintf("%q", b)
+}
+
+// every MAC key a data message reveals (read off the wire, as an eavesdropper does)
+func revealedOnWire(m []byte, version int) [][]byte {
+	if !isDataWire(m) {
+		return nil
+	}
+	f, ok := dataFields(decodeWire(m), version)
+	if !ok {
+		return nil
+	}
+	var out [][]byte
+	for i := 0; i+20 <= len(f.old); i += 20 {
+		out = append(out, append([]byte{}, f.old[i:i+20]...))
+	}
+	return out
+}
+
+// C02: forgery of a RECORDED message from a MAC key that was revealed afterwards. An eavesdropper
+// records every data message the peer P sends to V (all of them are delivered) and reads every MAC key
+// V reveals off the wire. As soon as a key has been revealed it is worthless as a proof of origin
+// (anybody can compute a MAC with it), so from then on nothing authenticated with it may be delivered:
+// every recorded message of P, ciphertext altered (one bit of the text, never producing a NUL), MAC
+// recomputed with the revealed key, is handed to V - among them the messages of the very pair the key
+// belonged to, which has been retired by the ping-pong in between (its counters are forgotten, so the
+// old counter value is no obstacle). V must return no plaintext, answer with no data message and stay
+// encrypted; the genuine traffic goes on undisturbed afterwards.
+func (g *gen) retiredPairForgery(w *world) {
+	version := 2 + g.r.Intn(2)
+	sl := newSchedLink(w, g, version, 0, 0)
+	if !sl.a.c.IsEncrypted() || !sl.b.c.IsEncrypted() || w.dead {
+		return
+	}
+	V, P := sl.a, sl.b
+	toV := false
+	if g.r.Intn(2) == 0 {
+		V, P = P, V
+		toV = true
+	}
+	type rec struct {
+		wire, text []byte
+		sk, rk     uint32
+	}
+	var recorded []rec
+	var fresh [][]byte // keys revealed by V and not tried yet
+	seenKey := map[string]bool{}
+	nKeys := 0
+	tap := func(from *party, ms []otr3.ValidMessage) {
+		if from != V {
+			return
+		}
+		for _, m := range reassembleAll(ms) {
+			for _, k := range revealedOnWire(m, version) {
+				if !seenKey[string(k)] {
+					seenKey[string(k)] = true
+					fresh = append(fresh, k)
+					nKeys++
+				}
+			}
+		}
+	}
+	send := func(p *party) {
+		t := g.cleanText()
+		ts, err := w.send(p, t)
+		if err == nil {
+			sl.side(sl.peer(p)).expect = append(sl.side(sl.peer(p)).expect, t)
+		}
+		sl.inspectOutgoing(p, ts)
+		sl.enqueue(p, ts)
+		tap(p, ts)
+		if p == P && err == nil {
+			for _, m := range reassembleAll(ts) {
+				if sk, rk, _, ok := otr3.VerifDataIDs(m); ok && isDataWire(m) {
+					recorded = append(recorded, rec{append([]byte{}, m...), t, sk, rk})
+				}
+			}
+		}
+	}
+	// deliver everything; what V emits on its own while receiving (heartbeats) is tapped as well
+	drain := func() {
+		for k := 0; k < 2000 && (len(sl.qab) > 0 || len(sl.qba) > 0) && !w.dead; k++ {
+			for _, to := range []bool{toV, !toV} {
+				outq := &sl.qab
+				r := sl.a
+				if to { // delivery to b: b's answers go to qba
+					outq = &sl.qba
+					r = sl.b
+				}
+				n0 := len(*outq)
+				if !sl.deliverOne(to) {
+					continue
+				}
+				var back []otr3.ValidMessage
+				for _, m := range (*outq)[n0:] {
+					back = append(back, otr3.ValidMessage(m))
+				}
+				tap(r, back)
+			}
+		}
+	}
+	tried, hit := 0, false
+	attack := func() {
+		for _, k := range fresh {
+			for j := len(recorded) - 1; j >= 0 && j >= len(recorded)-8 && !w.dead && !hit; j-- {
+				rc := recorded[j]
+				bin := decodeWire(rc.wire)
+				f, ok := dataFields(bin, version)
+				if !ok || f.encEnd-f.encStart < 4 {
+					continue
+				}
+				forged := append([]byte{}, bin...)
+				forged[f.encStart+1+g.r.Intn(3)] ^= 0x01 // ('!'..'z' never becomes NUL)
+				mac := hmac.New(sha1.New, k)
+				mac.Write(forged[:f.macStart])
+				copy(forged[f.macStart:f.macStart+20], mac.Sum(nil))
+				tried++
+				olog.ok("C02")
+				plain, back, _, _ := w.recv(V, encodeWire(forged))
+				if w.dead {
+					return
+				}
+				answered := false
+				for _, m := range back { // an OTR error reply is the only thing a rejected message may cause
+					if !isErrorReply(m) {
+						answered = true
+					}
+				}
+				if plain != nil || answered || !V.c.IsEncrypted() {
+					hit = true
+					sn := otr3.VerifSnapshot(V.c)
+					olog.viol("C02", "forged-with-disclosed-key-delivered", fmt.Sprintf("OTRv%d: %s returned %s (answered with a message: %v, still encrypted: %v) for a message its peer never sent: the recorded message number %d of %s (text %s, sender key id %d, recipient key id %d; accepted earlier) with one ciphertext bit flipped and the MAC recomputed with the key %x, which %s itself had revealed in an earlier data message (key number %d it revealed; its key ids now: our=%d their=%d)", version, V.id, cut(plain), answered, V.c.IsEncrypted(), j+1, P.id, cut(rc.text), rc.sk, rc.rk, k, V.id, nKeys, sn.OurKeyID, sn.TheirKeyID))
+				}
+			}
+		}
+		fresh = nil
+	}
+	rounds := 4 + g.r.Intn(2)
+	for i := 0; i < rounds && !w.dead && !hit; i++ {
+		for j := 0; j < 1+g.r.Intn(2); j++ {
+			send(P)
+		}
+		drain()
+		send(V)
+		drain()
+		attack()
+	}
+	g.dist[fmt.Sprintf("sched:retired-pair-forgeries:%d", tried/10*10)]++
+	if w.dead || hit {
+		return
+	}
+	for i := 0; i < 2 && !w.dead; i++ {
+		send(P)
+		drain()
+		send(V)
+		drain()
+	}
+	for _, s := range []*schedSide{sl.sa, sl.sb} {
+		if len(s.expect) > 0 && !w.dead {
+			olog.viol("C04", "lost", fmt.Sprintf("OTRv%d: after %d rejected forgeries %s never received %d text(s) the peer sent, first %q", version, tried, s.p.id, len(s.expect), s.expect[0]))
+		}
+	}
+	g.dist["sched:retired-pair-forgery"]++
+}
+
+// C04 under a silent randomness fault: at ONE draw of a new DH key - the rotation inside Receive, or
+// the key drawn when the key exchange completes - the randomness source of one side answers with 40
+// zero bytes and no error (exponent 0, public value 1). Nothing reports anything; the session goes on
+// over that key pair (both sides derive the same secret), so every text of either side must still be
+// delivered exactly once and in order (the per-side queues of deliverOne), through ping-pong, bursts,
+// crossing messages and further rotations.
+func (g *gen) degenerateDhDraw(w *world) {
+	version := 2 + g.r.Intn(2)
+	pol := 2
+	if version == 3 {
+		pol = 4
+	}
+	a := w.newParty(partyCfg{policies: pol, keyIdx: 0, errh: true})
+	b := w.newParty(partyCfg{policies: pol, keyIdx: 1, errh: true})
+	mk := func(p *party) *schedSide {
+		return &schedSide{p: p, acceptedKeys: map[string]string{}, pendingDisclose: map[string]string{}, disclosed: map[string]bool{}}
+	}
+	sl := &schedLink{link: &link{w: w, a: a, b: b}, sa: mk(a), sb: mk(b), g: g, keysMayCoincide: true}
+	F, O := a, b // F: the side whose randomness fails once
+	toF := false
+	if g.r.Intn(2) == 0 {
+		F, O = b, a
+		toF = true
+	}
+	atAke := g.r.Intn(3) == 0
+	armed := false
+	where := ""
+	drawn := false
+	zeros := make([]byte, 40)
+	// one delivery; towards F with the fault armed if the message is one that makes F draw a DH key
+	deliver := func(to bool) bool {
+		q := sl.qab
+		if !to {
+			q = sl.qba
+		}
+		if len(q) == 0 {
+			return false
+		}
+		arm := false
+		if to == toF && armed && !drawn {
+			if bin := decodeWire(q[0]); len(bin) > 2 {
+				if atAke {
+					arm = bin[2] == 0x11 || bin[2] == 0x12 // Reveal Signature / Signature: the exchange completes
+				} else {
+					arm = bin[2] == 0x03
+				}
+			}
+		}
+		if arm {
+			F.rnd.forced = [][]byte{zeros}
+		}
+		sl.deliverOne(to)
+		if arm {
+			// (the read that took the zero bytes is the 40 byte draw of a DH key, nothing else)
+			if h := F.rnd.history; len(F.rnd.forced) == 0 && len(h) > 0 && bytes.Equal(h[len(h)-1], zeros) {
+				drawn = true
+				sn := otr3.VerifSnapshot(F.c)
+				where += fmt.Sprintf(" (its key id %d)", sn.OurKeyID)
+			}
+			F.rnd.forced = nil
+		}
+		return true
+	}
+	drain := func() {
+		for i := 0; i < 4000 && (len(sl.qab) > 0 || len(sl.qba) > 0) && !w.dead; i++ {
+			deliver(true)
+			deliver(false)
+		}
+	}
+	var hist []string
+	text := func(p *party) {
+		sl.sendText(p, g.cleanText())
+		hist = append(hist, "s:"+p.id)
+	}
+	starter := []*party{a, b}[g.r.Intn(2)]
+	if atAke {
+		armed = true
+		where = "the key drawn when the key exchange completed"
+	}
+	sl.enqueue(starter, []otr3.ValidMessage{w.query(starter)})
+	drain()
+	if !a.c.IsEncrypted() || !b.c.IsEncrypted() || w.dead {
+		g.dist["sched:degenerate-dh-no-session"]++
+		return
+	}
+	mark := c04Hits()
+	if !atAke {
+		for i := 0; i < g.r.Intn(3) && !w.dead; i++ { // the ratchets are somewhere
+			text(F)
+			drain()
+			text(O)
+			drain()
+		}
+		armed = true
+		where = "the key drawn at the next rotation inside Receive"
+		hist = append(hist, "<fault armed>")
+	}
+	// ping-pong until the key has been drawn and is in use in both directions
+	for i := 0; i < 3 && !w.dead; i++ {
+		text(F)
+		drain()
+		text(O)
+		drain()
+	}
+	if !drawn {
+		g.dist["sched:degenerate-dh-not-drawn"]++
+	}
+	// a burst of each side, crossing messages, a short random schedule
+	for i := 0; i < 2+g.r.Intn(3); i++ {
+		text(F)
+	}
+	drain()
+	for i := 0; i < 2+g.r.Intn(3); i++ {
+		text(O)
+	}
+	drain()
+	text(F)
+	text(O)
+	drain()
+	for i := 0; i < 12+g.r.Intn(12) && !w.dead; i++ {
+		switch g.r.Intn(4) {
+		case 0:
+			text(F)
+		case 1:
+			text(O)
+		case 2:
+			if deliver(true) {
+				hist = append(hist, "d:"+b.id)
+			}
+		case 3:
+			if deliver(false) {
+				hist = append(hist, "d:"+a.id)
+			}
+		}
+	}
+	drain()
+	for i := 0; i < 2 && !w.dead; i++ {
+		text(O)
+		drain()
+		text(F)
+		drain()
+	}
+	for _, s := range []*schedSide{sl.sa, sl.sb} {
+		if len(s.expect) > 0 && !w.dead {
+			olog.viol("C04", "lost", fmt.Sprintf("OTRv%d: %s never received %d text(s) the peer sent, first %q", version, s.p.id, len(s.expect), s.expect[0]))
+		}
+	}
+	olog.ok("C04")
+	if c04Hits() > mark && drawn {
+		olog.viol("C04", "lost-under-silent-randomness-fault", fmt.Sprintf("OTRv%d: the randomness source of %s answered ONE read with 40 zero bytes and no error - %s, i.e. exponent 0 and public value 1 - and worked at all other times; schedule (s:p = p sends a text, d:p = p receives the oldest message in flight; everything else delivered in order) %s: not every text arrived exactly once, in order (%d oracle hits; %s received %d texts, %s received %d)", version, F.id, where, strings.Join(hist, " "), c04Hits()-mark, F.id, len(F.received), O.id, len(O.received)))
+	}
+	if atAke {
+		g.dist["sched:degenerate-dh-draw:ake"]++
+	} else {
+		g.dist["sched:degenerate-dh-draw:rotation"]++
+	}
+}
+
+// C05: a data message that carries a TEXT and has the flag IGNORE_UNREADABLE set (legal on the wire:
+// the flag only asks the addressee to stay quiet should it be unable to read the message) is accepted
+// once like any other. Delivered again - straight away, after more traffic under the same key pair,
+// after traffic in both directions, after the pair has been retired - it yields no plaintext and no
+// answer, whatever else (no TLV, padding, an SMP TLV that cannot be parsed, an extra-key TLV) it carries.
+func (g *gen) flaggedTextReplay(w *world) {
+	version := 2 + g.r.Intn(2)
+	sl := newSchedLink(w, g, version, 0, 0)
+	if !sl.a.c.IsEncrypted() || !sl.b.c.IsEncrypted() || w.dead {
+		return
+	}
+	S, R := sl.a, sl.b
+	if g.r.Intn(2) == 0 {
+		S, R = R, S
+	}
+	for i := 0; i < g.r.Intn(3) && !w.dead; i++ { // the ratchets are somewhere
+		sl.sendText(S, g.cleanText())
+		sl.drain()
+		sl.sendText(R, g.cleanText())
+		sl.drain()
+	}
+	var types []uint16
+	var values [][]byte
+	kind := g.r.Intn(4)
+	switch kind {
+	case 1:
+		types, values = []uint16{0}, [][]byte{make([]byte, 1+g.r.Intn(40))}
+	case 2:
+		types, values = []uint16{[]uint16{3, 2, 4, 5}[g.r.Intn(4)]}, [][]byte{{0, 0, 0, 1, 0xff}}
+	case 3:
+		types, values = []uint16{8}, [][]byte{{0, 0, 0, 7, 'x'}}
+	}
+	text := g.cleanText()
+	nBefore, wBefore := len(R.received), len(sl.side(R).seenWire)
+	sl.sendTextTLVs(S, text, types, values)
+	sl.drain()
+	if w.dead {
+		return
+	}
+	var wire []byte
+	for _, m := range sl.side(R).seenWire[wBefore:] {
+		if f, ok := otr3.VerifDataFlag(m); ok && f&1 != 0 && wire == nil {
+			wire = m
+		}
+	}
+	if wire == nil || len(R.received) != nBefore+1 || !bytes.Equal(R.received[nBefore], text) {
+		g.dist["sched:flagged-text-not-delivered"]++ // (nothing was accepted: nothing to replay; C04 speaks through the queues)
+		return
+	}
+	sk, rk, ctr, _ := otr3.VerifDataIDs(wire)
+	hit := false
+	replay := func(when string) {
+		for rep := 0; rep < 2 && !w.dead && !hit; rep++ {
+			plain, back, _, _ := w.recv(R, wire)
+			olog.ok("C05")
+			if w.dead {
+				return
+			}
+			answered := false
+			for _, m := range back { // an OTR error reply is the only thing a rejected message may cause
+				if !isErrorReply(m) {
+					answered = true
+				}
+			}
+			if plain != nil || answered {
+				hit = true
+				sn := otr3.VerifSnapshot(R.c)
+				olog.viol("C05", "replay-delivered", fmt.Sprintf("OTRv%d: %s accepted the data message (sender key id %d, recipient key id %d, counter %d, flags %s, text %q, TLV types %v) once; delivered again %s (repetition %d) Receive returned plaintext %q (answered with a message: %v); key ids of %s now: our=%d their=%d", version, R.id, sk, rk, ctr, flagStr(wire), text, types, when, rep+1, plain, answered, R.id, sn.OurKeyID, sn.TheirKeyID))
+			}
+		}
+	}
+	replay("straight away")
+	sl.sendText(S, g.cleanText())
+	sl.drain()
+	replay("after one more text of the same sender")
+	sl.sendText(R, g.cleanText())
+	sl.drain()
+	replay("after a text in the other direction")
+	sl.sendText(S, g.cleanText())
+	sl.drain()
+	replay("after a text in each direction and one more of the sender")
+	for i := 0; i < 2 && !w.dead; i++ {
+		sl.sendText(R, g.cleanText())
+		sl.drain()
+		sl.sendText(S, g.cleanText())
+		sl.drain()
+	}
+	replay("after three rounds of ping-pong (the key pair has been retired)")
+	for _, s := range []*schedSide{sl.sa, sl.sb} {
+		if len(s.expect) > 0 && !w.dead {
+			olog.viol("C04", "lost", fmt.Sprintf("%s never received %d text(s) the peer sent, first %q", s.p.id, len(s.expect), s.expect[0]))
+		}
+	}
+	g.dist[fmt.Sprintf("sched:flagged-text-replay:%d", kind)]++
+}
+
 func init() {
 	profiles["sched"] = func(seed int64, n int, out *emitter, extra map[string]interface{}) map[string]int {
 		g := &gen{r: rand.New(rand.NewSource(seed)), out: out, dist: map[string]int{}}
@@ -1638,6 +2068,19 @@ func init() {
 			}
 			if i%2 == 1 {
 				g.maxCounterReplay(w)
+			}
+		}
+		// (added later, after everything above so that the traces of the older scenarios stay what they were)
+		for i := 0; i < n; i++ {
+			w.parties = map[string]*party{}
+			w.dead = false
+			switch i % 3 {
+			case 0:
+				g.retiredPairForgery(w)
+			case 1:
+				g.degenerateDhDraw(w)
+			case 2:
+				g.flaggedTextReplay(w)
 			}
 		}
 		extra["panics"] = panicCount
